@@ -1,6 +1,6 @@
 """C04 — nonce sequencing (DESIGN §5 C04: R04.1 … R04.7)."""
 from ..prov import get_an, pp, strip_generics, contains
-from .common import (all_ans, adt_field_stores, adt_field_mut_borrows, aggregates_of, is_ok_agg, enumerate_paths,
+from .common import (switch_on, all_ans, adt_field_stores, adt_field_mut_borrows, aggregates_of, is_ok_agg, enumerate_paths,
                      switch_edge, uses_of_local_blocks, addr_fields, load_path_fields, where, hpke_variant,
                      is_err_agg, site_reaches, ret_classes, result_err_variants)
 from .aeadctx import (aead_sites, SiteInfo, check_nonce_helper, field_ref_of_self, CTX_ADT, is_zero_init)
@@ -202,12 +202,26 @@ def check_increment(rep, facts, key, rule='R04.5'):
         return
     rt = a.ret_val()
     ok = False
-    if rt[0] == 'call' and rt[1] == 'core::option::Option::map':
-        inner, f = rt[2]
-        if inner[0] == 'call' and inner[1] == 'core::num::<impl u64>::checked_add':
-            x, one = inner[2]
-            b, fs = load_path_fields(x)
-            ok = (b == ('param', 1) and fs == ['0'] and one == ('const', 'u64', 1) and f == ('fn', 'aead::Seq'))
+    # after normalisation `x.map(Seq)` and the match it abbreviates are the same term:
+    #   phi( Some(Seq(checked_add(seq.0, 1).Some.0)) | None )
+    if rt[0] == 'phi' and len(rt[1]) == 2:
+        alts = [x[1] for x in rt[1]]
+        some = [x for x in alts if x[0] == 'agg' and x[2] == 'core::option::Option::Some' and len(x[3]) == 1]
+        none = [x for x in alts if x[0] == 'agg' and x[2] == 'core::option::Option::None']
+        if len(some) == 1 and len(none) == 1:
+            w = some[0][3][0]
+            if w[0] == 'agg' and w[2] == 'aead::Seq::Seq' and len(w[3]) == 1:
+                v = w[3][0]
+                if v[0] == 'field' and v[1] == '0' and v[2][0] == 'variant' and v[2][1] == 'Some':
+                    inner = v[2][2]
+                    if inner[0] == 'call' and inner[1] == 'core::num::<impl u64>::checked_add':
+                        x, one = inner[2]
+                        b, fs = load_path_fields(x)
+                        ok = b == ('param', 1) and fs == ['0'] and one == ('const', 'u64', 1)
+                        if ok:
+                            # the None alternative is returned exactly when checked_add returned None
+                            sw = switch_on(a, lambda d: d[0] == 'discr' and d[1][0] == 'call' and d[1][1] == 'core::num::<impl u64>::checked_add')
+                            ok = len(sw) == 1
     rep.check(ok, rule, key, 'checked-add', pp(rt), 'u64::checked_add(seq.0, 1).map(Seq) (no wrap, no saturation, step 1, full width)', where(a))
 
 
